@@ -70,4 +70,9 @@ CLAIMED = {
   "note": "Trusted: canonical renderer and read-back.",
   "technique": "property-based differential testing between three construction routes",
  },
+ "C09": {
+  "text": "For every node (attribute and namespace nodes included) of generated trees with free declaration layouts, and every prefix and namespace known to the Xot, all scope queries and reported qualified names are compared with an independent nearest-declaration-wins scope model using the element/attribute resolution rules of Namespaces in XML.",
+  "note": "One recorded known finding (no-namespace element name under a default namespace has no correct spelling in the name API) is excluded by construction and counted; is_prefix_defined for unbound prefixes and Err results are not asserted.",
+  "technique": "property-based testing against an independent scope model",
+ },
 }
